@@ -63,6 +63,7 @@ PRECOND = {
     '<arcstr::substr::Substr as core::ops::index::Index<core::ops::range::RangeTo<usize>>>::index': 'str-index',
     'core::slice::<impl [T]>::windows': 'chunks', 'core::slice::<impl [T]>::chunks_exact': 'chunks', 'core::slice::<impl [T]>::chunks_mut': 'chunks',
     'core::iter::traits::iterator::Iterator::step_by': 'chunks',
+    'core::slice::<impl [T]>::rchunks': 'chunks', 'core::slice::<impl [T]>::rchunks_exact': 'chunks', 'core::slice::<impl [T]>::rchunks_mut': 'chunks',
     'core::slice::<impl [T]>::rotate_left': 'range', 'core::slice::<impl [T]>::rotate_right': 'range',
     'alloc::string::String::insert': 'str-split', 'alloc::string::String::insert_str': 'str-split', 'alloc::string::String::remove': 'str-split',
     'alloc::string::String::truncate': 'str-split', 'alloc::string::String::split_off': 'str-split', 'alloc::string::String::drain': 'str-split',
